@@ -17,7 +17,12 @@ class NbMeta(type):
 class NPScalar(metaclass=NbMeta):
     bits=64; signed=False; isfloat=False
     def __init__(self, v):
-        if isinstance(v, NPScalar): v=v.v
+        if isinstance(v, NPScalar):
+            # conversion between numpy scalars wraps silently (only Python ints are range-checked by NumPy 2)
+            v=v.v
+            if not self.isfloat and isinstance(v, int):
+                v = v & ((1<<self.bits)-1)
+                if self.signed and v >= (1<<(self.bits-1)): v -= (1<<self.bits)
         if self.isfloat: self.v=float(v); return
         if not isinstance(v,int): v=int(v)
         if self.signed:
